@@ -372,8 +372,10 @@ func verifC04CascadeInWritingTx(cfg vStoreCfg) {
 	})
 }
 
-func VerifC04_FkIndexCascadeInWritingTx()      { verifC04CascadeInWritingTx(vStoreCfg{fk: vFkIndexCascade}) }
-func VerifC04_FkConstraintCascadeInWritingTx() { verifC04CascadeInWritingTx(vStoreCfg{fk: vFkConstraintCascade}) }
+func VerifC04_FkIndexCascadeInWritingTx() { verifC04CascadeInWritingTx(vStoreCfg{fk: vFkIndexCascade}) }
+func VerifC04_FkConstraintCascadeInWritingTx() {
+	verifC04CascadeInWritingTx(vStoreCfg{fk: vFkConstraintCascade})
+}
 
 func init() {
 	ast.VerifTemplates = append(ast.VerifTemplates, vFBoss+` = "__VERIF_LIT__"`)
